@@ -22,6 +22,8 @@ pub fn ast_policy(s: &str) -> Option<cosmian_cover_crypt::AccessPolicy> {
                 Some(AccessPolicy::Term(QualifiedAttribute::new(&d, &n))) }
             "A" => { let l = go(t, p)?; let r = go(t, p)?; Some(AccessPolicy::Conjunction(Box::new(l), Box::new(r))) }
             "O" => { let l = go(t, p)?; let r = go(t, p)?; Some(AccessPolicy::Disjunction(Box::new(l), Box::new(r))) }
+            "a" => { let l = go(t, p)?; let r = go(t, p)?; Some(l & r) }
+            "o" => { let l = go(t, p)?; let r = go(t, p)?; Some(l | r) }
             _ => None,
         }
     }
